@@ -43,6 +43,7 @@ RULE += (' Also: synchronous managers whose enter value is awaitable payload / a
 RULE += (' Also: an awaitable fill value of zip_longest over several padding rounds.')
 RULE += (' Also: sources that are awaitable and asynchronously iterable (every tool but any_iter).')
 RULE += (' Also: synchronous mappings whose values are awaitable jobs handed to tools as (synchronous) iterables: no suspension, no job awaited.')
+RULE += (' Also: all / any / min / tuple / sorted / nsmallest / dropwhile / filterfalse / filter(None) / chain.from_iterable / iter(callable, sentinel) / scoped_iter / borrow / anext over large synchronous inputs and over items that are awaitable jobs.')
 ASSUMPTIONS = ["a loop that checks identity of every token and reply is at least as strict as any real event loop",
                "C functions called from asyncstdlib code are visible to sys.monitoring CALL events"]
 EXHAUSTIVE = {"quick": False, "thorough": False}
@@ -117,7 +118,9 @@ _MONITORED = {"n": None}
 
 LARGE_TOOLS = ["list", "sum", "max", "map", "zip", "reduce", "accumulate", "islice", "chain", "nlargest", "filter",
                "enumerate", "batched", "takewhile", "pairwise", "zip_longest", "merge", "tee", "groupby", "sorted_key",
-               "any_iter", "cycle", "compress", "starmap", "dict", "set", "sorted_async_src", "sorted_reverse", "min_async_src"]
+               "any_iter", "cycle", "compress", "starmap", "dict", "set", "sorted_async_src", "sorted_reverse", "min_async_src",
+               "all", "any", "min", "tuple", "sorted", "nsmallest", "dropwhile", "filterfalse", "filter_none",
+               "chain_from_iterable", "iter_sentinel", "scoped_iter", "borrow", "anext_default", "map_async_src"]
 
 
 def cases(tier, seed, shard, nshards):
@@ -166,8 +169,10 @@ def cases(tier, seed, shard, nshards):
                     yield {"kind": "large-sync", "tool": name, "n": n, "inside_asyncio": True}
     for m in (1, 2, 7):
         for name in LARGE_TOOLS + ["map_later_payload", "reduce_later_payload", "accumulate_later_payload"]:
-            if name == "any_iter":
-                continue  # (any_iter awaits awaitable items by contract)
+            if name in ("any_iter", "iter_sentinel"):
+                # (any_iter awaits awaitable items by contract; a callable RETURNING an awaitable is an asynchronous
+                # callable by the library's rule)
+                continue
             k += 1
             if k % nshards == shard:
                 yield {"kind": "large-sync", "tool": name, "n": m, "payload": "jobs"}
@@ -934,6 +939,45 @@ def run_large_sync(case, stats):
             return len(await A.dict(zip(data, data)))
         if tool == "set":
             return len(await A.set(data))
+        if tool == "all":
+            return await A.all(data[1:])  # (every item but 0 is true: the whole input is tested)
+        if tool == "any":
+            return await A.any(x for x in data if not x)  # (nothing true among them: the whole input is tested)
+        if tool == "min":
+            return await A.min(data, default=None)
+        if tool == "tuple":
+            return len(await A.tuple(data))
+        if tool == "sorted":
+            return len(await A.sorted(data))
+        if tool == "nsmallest":
+            return await A.nsmallest(data, 3)
+        if tool == "dropwhile":
+            return len(await A.list(A.dropwhile(lambda x: x < 2, data)))
+        if tool == "filterfalse":
+            return len(await A.list(A.filterfalse(lambda x: x % 2, data)))
+        if tool == "filter_none":
+            return len(await A.list(A.filter(None, data)))
+        if tool == "chain_from_iterable":
+            return len(await A.list(A.chain.from_iterable([data, data])))
+        if tool == "iter_sentinel":
+            feed = iter(data)
+            return len(await A.list(A.iter(lambda: next(feed, None), None)))
+        if tool == "scoped_iter":
+            async with A.scoped_iter(data) as it:
+                return len(await A.list(it))
+        if tool == "borrow":
+            return len(await A.list(A.borrow(A.iter(data))))
+        if tool == "anext_default":
+            it = A.iter(data)
+            k = 0
+            while (await A.anext(it, None)) is not None:
+                k += 1
+            return k
+        if tool == "map_async_src":
+            async def agen2():  # an asynchronous source that never suspends
+                for x in data:
+                    yield x
+            return len(await A.list(A.map(lambda x: int(x), agen2())))
         raise ValueError(tool)
 
     CTX.reset()
